@@ -390,7 +390,9 @@ func (s structSpec) harness(pkg string) string {
 		}
 		b.WriteString(fmt.Sprintf("\tzz.Assert(vhEqVis%s(%s{}.Apply(%s).Build(), x), %q)\n", s.name, s.builder(), strings.Join(us, ", "), "Apply(Unapply(x)) = x"))
 	}
-	h("tuple", b.String())
+	if len(vis) < 22 { // max.Product: wider structs have no tuple form (AsTuple/FromTuple/Unapply/Apply are not generated)
+		h("tuple", b.String())
+	}
 
 	// mutable twin
 	b.Reset()
@@ -446,6 +448,7 @@ func fixedPrograms() [][]structSpec {
 		{{name: "Same", fields: []fieldSpec{{"a1", kInt, ""}, {"a2", kInt, ""}, {"a3", kInt, ""}, {"a4", kInt, ""}, {"a5", kInt, ""}, {"a6", kInt, ""}}}},
 		{{name: "Refs", fields: []fieldSpec{{"p", kPtr, ""}, {"q", kPtr, ""}, {"s", kSlice, ""}, {"t", kSlice, ""}, {"m", kMap, ""}}}},
 		{{name: "Wide", fields: wideFields(21)}},
+		{{name: "Wider", fields: wideFields(23), json: true}},
 		{{name: "Mixed", fields: []fieldSpec{{"Id", kInt, ""}, {"name", kString, ""}, {"_c", kBool, ""}, {"Data", kSlice, ""}, {"cb", kFunc, ""}}, json: true, labelled: false}},
 		// field names that coincide with identifiers the generator uses itself (receiver r, parameters t/m/v, ok)
 		{{name: "Names", fields: []fieldSpec{{"r", kInt, ""}, {"t", kString, ""}, {"m", kInt, ""}, {"v", kOption, ""}, {"ok", kBool, ""}}}},
